@@ -1274,9 +1274,14 @@ func ruleG6(p *Prog, r *Report, eng *Engine) {
 			if !ok {
 				continue
 			}
+			// Only returns of the nil constant are judged.  A return that hands on a sub-parser's result which is
+			// nil in some abstract state was tried (DESIGN §11.22) and withdrawn: in a dispatcher that peeks at the
+			// token's role and then calls the sub-parser for that role, the interpreter cannot tell that the
+			// sub-parser's own role test must succeed, so 'nil, nothing consumed' is a spurious outcome there.
 			if !isNilValue(ret.Results[0], 0) {
 				continue
 			}
+			constNil := true
 			n++
 			key := fmt.Sprintf("%s|return nil", p.shortKey(f))
 			bad := 0
@@ -1304,6 +1309,9 @@ func ruleG6(p *Prog, r *Report, eng *Engine) {
 				if consumed && !errSet {
 					bad++
 				}
+			}
+			if os.Getenv("SPDXVERIF_DEBUG_G6") != "" {
+				fmt.Fprintf(os.Stderr, "G6DBG %s %s const-nil=%v states=%d bad=%d\n", f.Name(), p.pos(ret.Pos()), constNil, tot, bad)
 			}
 			if tot == 0 {
 				r.OK("G6", key, p.pos(ret.Pos()), "unreachable in the analysed contexts", "", true)
@@ -1334,6 +1342,9 @@ func (o *g6Run) Visit(eng *Engine, fn *ssa.Function, in ssa.Instruction, env *En
 	}
 	if fn != o.fn || len(eng.stack) != 1 {
 		return
+	}
+	if os.Getenv("SPDXVERIF_DEBUG_G6") == fn.Name() {
+		fmt.Fprintf(os.Stderr, "G6VISIT %s b%d %T %s\n", fn.Name(), in.Block().Index, in, in.String())
 	}
 	if ret, ok := in.(*ssa.Return); ok {
 		o.at[env] = ret
